@@ -36,6 +36,6 @@ def run(ctx):
     lines = cc.run_dec(ctx, binp, casep, tracep)
     cc.account(ctx, lines, "mutants = spec-defined mutations of valid encodings (classes %s); non-trivial = distinct (type, input) pairs "
                "whose class is not 'valid'" % ", ".join(CLASSES), lambda r: r["cls"] != "valid")
-    vf.validate_trace(ctx, "Codec_Trace", cc.shard_by_size(lines), constants=cc.trace_constants(k), timeout=1500, heap="3g",
+    vf.validate_trace(ctx, "Codec_Trace", cc.shard_by_size(lines, 1200000 if ctx.quick else 2500000), constants=cc.trace_constants(k), timeout=1500, heap="3g",
                       par=6 if ctx.quick else 12, what="decoder is not strict / canonical")
     mcjob.join()
